@@ -52,13 +52,14 @@ def check(prog, ctx):
     ctx.rule('C07.f', 'KDE: the returned interpolant is multiplied by the reciprocal of its own integral over [xMin,xMax]', 1)
     ctx.rule('C07.g', 'dependency: the incomplete-gamma evaluator reached from CDF_Poisson/CDF_Chi_Square passes C06.a (Lentz term index) and its '
              'quadrature window never evaluates the integrand at negative abscissae', 2)
-    continuous(prog, ctx)
-    discrete(prog, ctx)
-    likelihoods(prog, ctx)
-    quantile(prog, ctx)
-    chibar(prog, ctx)
-    kde(prog, ctx)
-    dependency(prog, ctx)
+    ctx.sub('continuous', continuous, prog, ctx)
+    ctx.sub('discrete', discrete, prog, ctx)
+    ctx.sub('likelihoods', likelihoods, prog, ctx)
+    ctx.sub('quantile', quantile, prog, ctx)
+    ctx.sub('chibar', chibar, prog, ctx)
+    ctx.sub('kde', kde, prog, ctx)
+    ctx.sub('kde_scale', kde_scale, prog, ctx)
+    ctx.sub('dependency', dependency, prog, ctx)
 
 
 def continuous(prog, ctx):
@@ -341,6 +342,56 @@ def kde(prog, ctx):
     ctx.decide('C07.f', 'Perform_KDE:normalisation', fn, ok, 'the estimate is divided by its own integral over [xMin,xMax]: ' + detail,
                'the estimate is not normalised by the integral of the returned curve: ' + detail,
                witness={'reproducer': 'data piling up at a window edge: a rectangle-sum normalisation integrates to 0.98-0.996'} if not ok else None)
+
+
+def kde_scale(prog, ctx):
+    """The tabulated estimate is the kernel sum divided by bandwidth * total weight (the definition of a weighted KDE) before
+    the final renormalisation: without it the curve scales with the weights and the absolute tolerance of the
+    normalising integral is no longer adequate."""
+    from ..symx import arr_as_tuple
+    fn = prog.fn(L + 'Perform_KDE')
+    pbs = []
+    for s_ in walk_stmts(fn.body):
+        if s_['k'] == 'Expr':
+            c_ = strip(s_['e'])
+            if c_.get('k') == 'Call' and c_.get('kind') == 'method' and (c_.get('callee') or {}).get('name') == 'push_back' \
+                    and 'std::vector<std::vector<double' in str(strip(c_['obj']).get('ty', '')):
+                pbs.append((s_, c_))
+    inst = 'Perform_KDE:scale'
+    if len(pbs) != 1:
+        ctx.undecided('C07.f', inst, fn, 'tabulation statement not found (%d candidates)' % len(pbs))
+        return
+    try:
+        sx = Symx(prog, fn)
+        dn = fn.params[0]['name']
+        bwp = fn.params[3]
+        probs = []
+        n = 0
+        for st_ in sx.states_at(fn, pbs[0][0]):
+            row = arr_as_tuple(sx.rvalue(pbs[0][1]['args'][0], st_))
+            if not isinstance(row, sp.Tuple) or len(row) != 2:
+                raise Undecided('tabulated row is not {x, estimate}')
+            n += 1
+            val = row[1]
+            bwv = st_.env.get(bwp['id'], sx.symbol(bwp['name'], 'double'))
+            wsum = [y_ for y_ in val.atoms(sp.Sum) if len(y_.limits) == 1 and str(y_.function) == '%s.weight(%s)' % (dn, y_.limits[0][0])]
+            W = None
+            for y_ in wsum:
+                iv_, lo_, hi_ = y_.limits[0]
+                if lo_ == 0 and str(sp.simplify(hi_ + 1)) in ('len(%s)' % dn,):
+                    W = y_
+            if W is None:
+                probs.append('the tabulated value %s is not divided by the total weight sum over all data points' % str(val)[:100])
+                continue
+            core = sp.simplify(val * W * bwv)
+            if not (isinstance(core, Symbol) and '@loop' in str(core)) and (core.has(W) or (isinstance(bwv, sp.Basic) and bwv.free_symbols and core.has(*bwv.free_symbols))):
+                probs.append('the tabulated value is %s, not kernel-sum/(bandwidth*total weight)' % str(val)[:120])
+        if n == 0:
+            raise Undecided('no path reaches the tabulation')
+        ctx.decide('C07.f', inst, fn, not probs, 'tabulated value = kernel sum / (bandwidth * sum of all weights) on %d paths' % n, '; '.join(probs[:2]),
+                   witness={'reproducer': 'weights of overall scale 1e-10: the curve integrates to 1.69 instead of 1'} if probs else None)
+    except Undecided as ex_:
+        ctx.undecided('C07.f', inst, fn, 'tabulation outside the understood fragment: %s' % ex_)
 
 
 def dependency(prog, ctx):
